@@ -623,6 +623,53 @@ where
     }
 }
 
+/// Verification hooks (raw state access); only built with the `verif` feature.
+#[cfg(feature = "verif")]
+#[doc(hidden)]
+impl<T, B> QuotientFilter<T, B>
+where
+    T: Hash + ?Sized,
+    B: BuildHasher + Clone + Eq,
+{
+    /// Write a raw slot (metadata bits and remainder).
+    pub fn verif_set_slot(&mut self, i: usize, occ: bool, cont: bool, shifted: bool, rem: usize) {
+        self.is_occupied.set(i, occ);
+        self.is_continuation.set(i, cont);
+        self.is_shifted.set(i, shifted);
+        self.remainders.set(i as u64, rem);
+    }
+
+    /// Overwrite the element counter.
+    pub fn verif_set_n(&mut self, n: usize) {
+        self.n_elements = n;
+    }
+
+    /// Read a raw slot.
+    pub fn verif_slot(&self, i: usize) -> (bool, bool, bool, usize) {
+        (
+            self.is_occupied[i],
+            self.is_continuation[i],
+            self.is_shifted[i],
+            self.remainders.get(i as u64),
+        )
+    }
+
+    /// Number of slots of the remainder table.
+    pub fn verif_table_len(&self) -> usize {
+        self.remainders.len() as usize
+    }
+
+    /// Number of blocks backing the remainder table.
+    pub fn verif_table_blocks(&self) -> usize {
+        succinct::BitVec::block_len(&self.remainders)
+    }
+
+    /// Quotient and remainder of an element.
+    pub fn verif_quotient_remainder(&self, obj: &T) -> (usize, usize) {
+        self.calc_quotient_remainder(obj)
+    }
+}
+
 #[cfg(test)]
 mod tests {
     use super::QuotientFilter;
